@@ -501,3 +501,42 @@ Proof.
   rewrite Ea, Eb. exists (a, b). split; [reflexivity|]. cbn [fst snd]. split; [exact Oa|]. split; [exact Ob|]. intro l.
   rewrite Ca, Cb, (written_nz_nodup l _ N1), (written_nz_nodup l _ N2). split; reflexivity.
 Qed.
+
+(* the parsed sides name no species that the printed sides did not name *)
+Lemma add_coef_labels l z d x : In x (map fst (add_coef l z d)) -> x = l \/ In x (map fst d).
+Proof.
+  induction d as [|[l' c] d IH]; cbn [add_coef map fst]; [intros [<-|[]]; left; reflexivity|].
+  destruct (str_eqb l l'); cbn [map fst].
+  - intros [H|H]; [right; left; exact H|right; right; exact H].
+  - intros [H|H]; [right; left; exact H|]. destruct (IH H) as [E|E]; [left; exact E|right; right; exact E].
+Qed.
+
+Lemma add_all_labels ps d x : In x (map fst (add_all ps d)) -> In x (map fst ps) \/ In x (map fst d).
+Proof.
+  revert d. induction ps as [|[l z] ps IH]; intro d; [cbn; auto|]. cbn [add_all fold_left fst snd]. fold (add_all ps (add_coef l z d)).
+  intros H. destruct (IH _ H) as [E|E]; [left; right; exact E|]. destruct (add_coef_labels _ _ _ _ E) as [->|E']; [left; left; reflexivity|right; exact E'].
+Qed.
+
+Lemma nz_labels d x : In x (map fst (nz d)) -> In x (map fst d).
+Proof. unfold nz. rewrite !in_map_iff. intros (p & <- & Hp). apply filter_In in Hp. exists p. split; [reflexivity|apply Hp]. Qed.
+
+Theorem parse_print_eq_full r : all_ok (fst r) -> all_ok (snd r) -> NoDup (map fst (fst r)) -> NoDup (map fst (snd r)) ->
+  exists r', parse_eq (print_eq r) = Some r' /\ side_order (fst r') = side_order (fst r) /\ side_order (snd r') = side_order (snd r) /\
+    (forall l, coef_of l (fst r') = coef_of l (fst r) /\ coef_of l (snd r') = coef_of l (snd r)) /\
+    (forall x, In x (map fst (fst r')) -> In x (map fst (fst r))) /\ (forall x, In x (map fst (snd r')) -> In x (map fst (snd r))).
+Proof.
+  intros H1 H2 N1 N2. unfold parse_eq, print_eq.
+  change ([c_minus; c_gt; c_sp] ++ print_side (snd r) true) with (c_minus :: c_gt :: (c_sp :: print_side (snd r) true)).
+  rewrite (split_arrow_run _ (print_side_no_arrow _ H1)). cbn [rev app].
+  assert (Ha2 : has_arrow (c_sp :: print_side (snd r) true) = false).
+  { rewrite has_arrow_cons, (print_side_no_arrow _ H2). destruct (print_side (snd r) true); reflexivity. }
+  rewrite (split_arrow_none _ Ha2). cbn [rev app].
+  rewrite parse_side_leading_space.
+  rewrite (side_roundtrip_exact (fst r) H1), (side_roundtrip_exact (snd r) H2).
+  eexists. split; [reflexivity|]. cbn [fst snd].
+  rewrite !side_order_add_all, !side_order_nz. repeat split; try (cbn; lia).
+  - rewrite coef_add_all. cbn [coef_of]. rewrite (written_nz_nodup l _ N1). lia.
+  - rewrite coef_add_all. cbn [coef_of]. rewrite (written_nz_nodup l _ N2). lia.
+  - intros x Hx. destruct (add_all_labels _ _ _ Hx) as [E|[]]. apply nz_labels. exact E.
+  - intros x Hx. destruct (add_all_labels _ _ _ Hx) as [E|[]]. apply nz_labels. exact E.
+Qed.
